@@ -28,7 +28,7 @@ def run(ctx):
                  b'HTTP/1.1 404 Not Found\r\nTransfer-Encoding: chunked\r\n\r\n3\r\nabc\r\nA\r\n0123456789\r\n0\r\n\r\n',
                  b'HTTP/1.0 301 Moved Permanently\r\nLocation: /x\r\n\r\n']
         reqs = []
-        for _ in range(40 if thorough else 8):
+        for _ in range(40 if thorough else 8 * ctx.scale):
             g = G.rand_request(rng, body_max=60, nheaders_max=6)
             reqs.append(G.render_request(g))
         reqs.append(b'GET /api/v1/items?x=1 HTTP/1.1\r\nHost: a\r\nX-Forwarded-For: 9.9.9.9\r\n\r\n')
@@ -43,7 +43,7 @@ def run(ctx):
             for i in rng.sample(range(len(s)), 6 if thorough else 2):
                 add('stall', 'send:%s:stall' % s[:i].hex(), rng.choice(reqs), (s, i))
         # valid responses, every status class, CL / chunked / close-delimited
-        for k in range(300 if thorough else 40):
+        for k in range(300 if thorough else 40 * ctx.scale):
             code = G.STATUS[k % len(G.STATUS)]
             body = bytes(rng.getrandbits(8) for _ in range(rng.choice([0, 1, 5, 40, 300])))
             hs = G.rand_resp_headers(rng, 6)
@@ -73,7 +73,7 @@ def run(ctx):
                          # the literal prefix occurring again right after itself must be stripped once only
                          ('/api/*', '/api//api/users'), ('/docs*', '/docs/docs/intro.html'), ('/*', '///x'), ('/*', '//x'),
                          ('/a*', '/aaa'), ('/ab*', '/ababab/c'), ('/api/*', '/api/api/users')]
-        for _ in range(40 if thorough else 8):
+        for _ in range(40 if thorough else 8 * ctx.scale):
             pre = rng.choice(['/', '/p', '/p/', '/ab', '/é/', '/x/y/'])
             rest = rng.choice(['', 'q', '/q', pre, pre.lstrip('/'), pre + pre, '/' + pre, 'z/' + pre])
             handler_cases.append((pre + '*', pre + rest))
